@@ -208,7 +208,7 @@ def cases(tier, cfg, seed):
         # all five assignment forms
         for asg in ('+=', '-=', '*=', '/='):
             for e in ([A_, bn('+', A_, B_), S_] if tier == 'quick' else [A_, bn('+', A_, B_), bn('*', A_, S_), un(A_), S_]):
-                if asg == '/=' and not isf and e.kind == 'bin': continue
+                if asg == '/=' and not isf and e.kind not in ('T', 'S'): continue      # integer divisor: leaves only (0 and -1 are excluded element-wise)
                 for n in ((9,) if tier == 'quick' else (5, 9, 17)):
                     try: add(Expr(T, n, e, asg))
                     except ValueError: pass
